@@ -17,6 +17,7 @@ import (
 	"context"
 	"fmt"
 	"math/rand"
+	"strings"
 	"sync"
 	"time"
 
@@ -281,4 +282,116 @@ func c17AsyncChild(ctx *runCtx, spec string) {
 	}
 	ctx.rep.Distinct(fmt.Sprintf("async|N=%d|phase=after-owner-stopped", n))
 	ctx.rep.Sample(map[string]interface{}{"config": spec, "keys": keys})
+}
+
+// "pipe": many commands are queued in ONE pipeline before Exec - Put and GetPut with distinct self-describing
+// values of different sizes and types, interleaved with ordinary Puts of the same client - and every value is read
+// back afterwards. A queued command must own the bytes it was given until Exec has sent them.
+func c17PipeChild(ctx *runCtx, spec string) {
+	var n, r, rounds int
+	var seed int64
+	fmt.Sscanf(spec, "pipe N=%d R=%d rounds=%d seed=%d", &n, &r, &rounds, &seed)
+	c, err := cluster.Start(cluster.Config{Replicas: r, Partitions: 13, TableSize: 1 << 20}, n)
+	if err != nil {
+		ctx.rep.Inconclusive(spec + ": cluster start: " + err.Error())
+		return
+	}
+	defer c.Shutdown()
+	fp := c.Fingerprint()
+	bg := context.Background()
+	cc, err := c.NewClusterClient()
+	if err != nil {
+		ctx.rep.Inconclusive(spec + ": cluster client: " + err.Error())
+		return
+	}
+	defer cc.Close(bg)
+	rng := rand.New(rand.NewSource(seed))
+	sizes := []int{24, 100, 700, 5000, 40000}
+	for round := 0; round < rounds; round++ {
+		name := fmt.Sprintf("c17-pipe-%d-%d", seed, round)
+		dm, err := cc.NewDMap(name)
+		if err != nil {
+			ctx.rep.Inconclusive(spec + ": NewDMap: " + err.Error())
+			return
+		}
+		cdm := dm.(*olric.ClusterDMap)
+		pipe, err := cdm.Pipeline()
+		if err != nil {
+			ctx.rep.Inconclusive(spec + ": Pipeline: " + err.Error())
+			return
+		}
+		want := map[string][]byte{}
+		how := map[string]string{}
+		var order []string
+		queued := 8 + rng.Intn(56)
+		for i := 0; i < queued; i++ {
+			k := fmt.Sprintf("p-%d-%d", round, i)
+			v := c17Tagged(k, sizes[rng.Intn(len(sizes))]+rng.Intn(7))
+			var qerr error
+			switch x := rng.Intn(10); {
+			case x < 4:
+				how[k] = "pipelined GetPut"
+				_, qerr = pipe.GetPut(bg, k, v)
+			case x < 7:
+				how[k] = "pipelined Put"
+				_, qerr = pipe.Put(bg, k, v)
+			case x < 8:
+				how[k] = "pipelined GetPut (string)"
+				_, qerr = pipe.GetPut(bg, k, string(v))
+			default:
+				// an ordinary call of the same client between two queued commands
+				how[k] = "plain Put between queued commands"
+				qerr = dm.Put(bg, k, v)
+			}
+			if qerr != nil {
+				ctx.rep.Inconclusive(fmt.Sprintf("%s: %s: %v", spec, how[k], qerr))
+				return
+			}
+			want[k] = v
+			order = append(order, k)
+		}
+		if err := pipe.Exec(bg); err != nil {
+			ctx.rep.Inconclusive(spec + ": Exec: " + err.Error())
+			return
+		}
+		pipe.Close()
+		router := paths.NewRouter(c, name)
+		sess := router.NewSession()
+		bad := false
+		for _, k := range order {
+			ctx.rep.Eval(1)
+			ctx.rep.Count("pipe_values_written_by_"+strings.ReplaceAll(how[k], " ", "_"), 1)
+			for _, kind := range []string{"EO", "CC"} {
+				g, err := sess.Via(kind).Get(bg, k)
+				if err == nil && bytes.Equal(g.Value, want[k]) {
+					continue
+				}
+				if paths.Class(err) == "net" {
+					ctx.rep.Inconclusive(spec + ": Get: " + err.Error())
+					continue
+				}
+				if !bad {
+					bad = true
+					what := "error " + fmt.Sprint(err)
+					if err == nil {
+						what = c17Describe(g.Value, want[k])
+					}
+					ctx.rep.Violate("c17|pipe|value-differs|written-by="+strings.ReplaceAll(how[k], " ", "-"),
+						fmt.Sprintf("%s round %d: %d commands were queued in one pipeline and executed; %s of %s (%d bytes) reads back via %s: %s", spec, round, queued, how[k], k, len(want[k]), kind, what),
+						map[string]interface{}{"batch": spec, "key": k, "queued": queued})
+				}
+			}
+		}
+		ctx.rep.Distinct(fmt.Sprintf("pipe|N=%d|R=%d|queued=%d", n, r, queued/8))
+		sess.Close()
+		router.Close()
+		_ = dm.Destroy(bg)
+		if c.Fingerprint() != fp {
+			if k := ctx.rep.DropViolations(); k > 0 {
+				ctx.rep.Inconclusive(fmt.Sprintf("%s: membership/routing changed; %d violation(s) dropped", spec, k))
+			}
+			return
+		}
+	}
+	ctx.rep.Sample(map[string]interface{}{"config": spec, "rounds": rounds})
 }
